@@ -51,4 +51,49 @@ PROPS = {
         level_note="YAML and Unicode tables are outside the model (validated only); regexps modelled by the string tests they denote; trusted: Coq kernel, go2v, harness",
         explanation="parse/build theorems over all components; correspondence on generated and hostile paths",
     ),
+    "C01": dict(
+        model="Model/Cafs.v (writer, layout, Read / ReadAt / WriteTo)",
+        oracle="CafsCheck.c01_ok (every read style returns the content / its window; Written = length)",
+        theorems_named="C01_put / C01_chunking_irrelevant / C01_layout / C01_read_*",
+        assumptions=[
+            "leaf size > 0; the hash H is arbitrary for the writer theorems",
+            "one Write call = one chunk as io.Copy hands it over (32 KiB reads, or everything at once for a WriterTo source)",
+            "leaf streams follow the io.Reader contract: at least one byte per call when space and data remain, EOF with the last bytes or on a separate call (oracle-quantified)",
+            "LRU cache, free list and prefetcher of the reader are not modelled; only their visible results are compared (cold caches, prefetch 0..3)",
+            "the evaluated cases use leaf sizes 64..128 so that the Gallina BLAKE2b stays cheap; the theorems have no size bound",
+        ],
+        trusted=["Gallina BLAKE2b (Model/Blake2b.v) used only to evaluate case files", "python3 hashlib reference (tools/blake_tree.py)"],
+        level_text="C01_put is proved for every leaf size, every chunking of the source and every store: the writer terminates, reports the content length and lays the content out in full leaves plus one short last leaf; the read theorems (sequential Read for every buffer-size sequence and every legal stream behaviour, ReadAt for every offset/length, both WriteTo paths) state that the stored object reads back as the content; the model (writer loop, reader state machine, verification convention) is compared with cafs.Fs Put/Get/GetAt on boundary-size contents, chunkings, stream modes, buffer sequences and a ReadAt grid on every run",
+        level_note="cache/prefetch/free-list machinery and goroutine scheduling are outside the model; trusted: Coq kernel, harness, memstore",
+        explanation="writer and reader theorems over all contents, chunkings, buffers; correspondence on boundary-size objects",
+    ),
+    "C02": dict(
+        model="Model/Cafs.v (put, tree_key) with H = Model/Blake2b.v in the case files",
+        oracle="CafsCheck.c02_ok (key = Gallina BLAKE2b tree key = hashlib key; Found iff root present; prior blobs unchanged)",
+        theorems_named="C02_key_function / C02_duplicate / C02_others_intact / C02_injective",
+        assumptions=[
+            "collision freedom of the hash appears as an explicit hypothesis (H_inj) where a statement needs it; it is a cryptographic assumption, not an axiom",
+            "parallel flushes are modelled in index order; the final store as a map does not depend on their completion order because the keys written are pairwise distinct under H_inj",
+            "memstore reports no CRC32C, so the CRC branch of existsAndValidBlob is not exercised",
+        ],
+        trusted=["Gallina BLAKE2b (Model/Blake2b.v)", "python3 hashlib reference (tools/blake_tree.py)"],
+        level_text="C02_key_function is proved for every content, chunking and prior store: the key is tree_key(content, L); C02_duplicate / C02_others_intact / C02_injective give duplicate detection, frame and injectivity under collision freedom; on every run histories of repeated / overlapping / prefix Puts into one shared store are executed on the real cafs and the keys are compared three ways (implementation, Gallina BLAKE2b tree model, Python hashlib) together with the store contents before and after",
+        level_note="collision freedom is assumed, BLAKE2b itself is executed (vector-checked), not verified; trusted: Coq kernel, harness, hashlib",
+        explanation="key-function theorem over all contents and chunkings; three-way key comparison on shared-store histories",
+    ),
+    "C03": dict(
+        model="Model/Cafs.v (leaves_for_hash, verify_leaf, Read / ReadAt / WriteTo) with H = Model/Blake2b.v in the case files",
+        oracle="CafsCheck.c03_ok (every probe on a damaged store either fails or returns the right bytes)",
+        theorems_named="C03_read_at / C03_read_seq / C03_write_to_at",
+        assumptions=[
+            "collision freedom of the hash, jointly in tree parameters and data, and 64-byte digests: explicit hypotheses of the theorems (cryptographic assumption)",
+            "a sequential Read hands bytes of a leaf to the caller before that leaf is verified; the statement is about reads that reach EOF without error (io.Copy semantics)",
+            "readers are created on cold key and leaf caches (a warm cache serves verified content)",
+            "bundle download = WriteTo through a WriterAt per file; the bundle-level path is exercised by the C04 harness",
+        ],
+        trusted=["Gallina BLAKE2b (Model/Blake2b.v) used to evaluate case files"],
+        level_text="C03_read_at, C03_read_seq and C03_write_to_at are proved for an arbitrary blob store (any damage whatsoever) under collision freedom: whenever a read style succeeds the bytes are the content (its window for ReadAt; the destination file for the download path, leaves copied in any order); the verification logic of the model (root blob check, leaf key convention) is compared with the real cafs on every kind of single-blob damage through Read, ReadAt and both WriteTo paths on each run",
+        level_note="collision freedom assumed; caches cold; trusted: Coq kernel, harness, memstore",
+        explanation="soundness theorems over all stores; correspondence on single-blob damages",
+    ),
 }
